@@ -137,10 +137,48 @@ def check_one(data):
     return None, False
 
 
+TAIL = b'#.change:\n#..file:\n#...meta: length=3\n{}\n'
+CATALOGUE = [
+    # preamble that is only its newline, with indentation
+    b'#diffx: encoding=utf-8, version=1.0\n#.preamble: indent=4, length=1'
+    b'\n\n' + TAIL,
+    b'#diffx: encoding=utf-8, version=1.0\n#.preamble: indent=4, length=2, '
+    b'line_endings=dos\n\r\n' + TAIL,
+    b'#diffx: encoding=utf-16, version=1.0\n#.preamble: indent=2, length=2'
+    b'\n\n\x00' + TAIL,
+    b'#diffx: encoding=utf-8, version=1.0\n#.preamble: indent=1, length=1, '
+    b'line_endings=dos\n\n' + TAIL,
+    # metadata that is JSON but not an object
+    b'#diffx: encoding=utf-8, version=1.0\n#.meta: length=4\n[1]\n' + TAIL,
+    b'#diffx: encoding=utf-8, version=1.0\n#.meta: length=2\n5\n' + TAIL,
+    b'#diffx: encoding=utf-8, version=1.0\n#.meta: length=5\nnull\n' + TAIL,
+    b'#diffx: encoding=utf-8, version=1.0\n#.meta: length=4\n"x"\n' + TAIL,
+    # metadata nested too deeply
+    b'#diffx: encoding=utf-8, version=1.0\n#.meta: length=100001\n'
+    + b'[' * 100000 + b'\n' + TAIL,
+    # preamble without any encoding
+    b'#diffx: version=1.0\n#.preamble: length=3\nab\n' + TAIL,
+    b'#diffx: version=1.0\n#.change:\n#..preamble: length=3\nab\n'
+    b'#..file:\n#...meta: length=3\n{}\n',
+    # empty content, zero / huge / odd lengths
+    b'#diffx: version=1.0\n#.change:\n#..file:\n#...meta: length=0\n',
+    b'#diffx: version=1.0\n#.change:\n#..file:\n#...meta: length=3\n',
+    b'#diffx: version=1.0\r\n#.change:\n#..file:\n#...meta: length=3\n{}\n',
+]
+
+
 def bounded(seed, n):
     rng = random.Random(seed)
     evals = 0
     known = 0
+    for data in CATALOGUE:
+        evals += 1
+        w, kn = check_one(data)
+        if w:
+            w['file'] = data.hex() if len(data) < 4000 else \
+                data[:200].hex()
+            w['catalogue_case'] = True
+            return {'evaluations': evals, 'known': known, 'witness': w}
     kinds = collections.Counter()
     for k in range(n):
         r = k % 6
